@@ -2,7 +2,6 @@
 //! recording one NDJSON event per call for Trace_RcvdJournal.
 use std::time::Duration;
 
-use bytes::BufMut;
 use qbase::{
     frame::{AckFrame, EncodeSize, io::WriteFrame},
     packet::PacketNumber,
